@@ -508,6 +508,9 @@ inline void url_search_params::clear_params() noexcept {
 }
 
 inline void url_search_params::copy_params(const url_search_params& other) {
+    // std::list assignment gives the basic guarantee only: if it throws, the
+    // list is a mix of both and must not be taken for sorted
+    is_sorted_ = false;
     params_ = other.params_;
     is_sorted_ = other.is_sorted_;
 }
